@@ -102,6 +102,8 @@ def judge(chk, results, verdicts, views_p, tier):
         if (kind, item) in seen:
             continue
         seen.add((kind, item))
+        if sum(1 for (k2, _) in seen if k2 == kind) > 8:
+            continue  # one root cause: a handful of replay files is enough
         chk.violation({"kind": kind, "item": item},
                       {"item": item, "path": r["path"], "seed": seed(), "tier": tier, "observed": r["detail"]},
                       f"{kind} on {item} via {'>'.join(r['path'])}: {r['detail'][:300]}")
@@ -112,6 +114,9 @@ def judge(chk, results, verdicts, views_p, tier):
                 diag["stricter:" + s] = diag.get("stricter:" + s, 0) + 1
             log(f"[C19] diagnostic (stricter than the property): {v['id']} [{v['cfg']}]: {v['stricter']}")
         if not v["failed"]:
+            continue
+        diag["_classes_violating_invariants"] = diag.get("_classes_violating_invariants", 0) + 1
+        if diag["_classes_violating_invariants"] > 10:
             continue
         if views is None:
             views = {(x["id"], x["cfg"]): x for x in read_ndjson(views_p)}
@@ -131,7 +136,7 @@ def main(tier, replay=None):
         obj = json.load(open(replay))["replay"]
         os.environ["VERIF_SEED"] = str(obj.get("seed", seed()))
         routes_p, _ = routes(chk, "q" if len(obj.get("path", [])) <= 7 else "t")
-        results, summary, views_p = run_harness(routes_p, "replay", obj.get("tier", "thorough"), only=obj["item"])
+        results, summary, views_p = run_harness(routes_p, "replay", "thorough", only=obj["item"])
         log(f"[C19] replay: {summary}")
         verdicts = judge_views(chk, views_p, "replay")
         judge(chk, results, verdicts, views_p, obj.get("tier", "thorough"))
